@@ -205,6 +205,20 @@ def check_C01(chk, tier, seed):
             chk.count("depth:" + o["DEPTH"])
         if i % max(1, len(allc) // 5) == 0:
             chk.sample(dict(case=c, impl=short(im, 300), P=ok))
+    # deep nesting encoded on a thread with a small stack (128 KiB): the encoder needs little stack per level
+    gdef01 = [d for d in eng.dicts["g"].live() if d["ty"] == "grp" and d["vendor"] is None][0]
+    for depth in (8, min(eng.lim or 31, 31)):
+        e = ("E", 1011, None, 0x40, ("L", ("oct", b"leaf")))
+        for _ in range(depth):
+            e = ("E", gdef01["code"], None, 0, ("GN", [e, ("E", 1011, None, 0, ("L", ("oct", b"ab")))]))
+        line = hist_line("g", ("NEW", 272, 4, 0x80, 1, 2), [("ADD", e)])
+        o = core.run_sharded([eng.harness, "codec"], eng.prelude, [f"SMALLENC 128 {line[2:]}"], shards=1, timeout=120)[0]
+        chk.case(f"SMALLENC 128 depth {depth}", True)
+        chk.validated += 1
+        chk.count("encode-on-small-stack")
+        if o != "OK":
+            chk.violation(f"a message with Grouped AVPs nested {depth} deep could not be encoded on a thread with a 128 KiB stack (or came out differently): " + short(o, 200),
+                          dict(case=f"SMALLENC 128 {line[2:]}", impl=short(o)))
     chk.rule = (f"exhaustive table of 18 kinds x vendor x M/P x length residue ({ntable} cases) + regression corpus + "
                 f"{n} generated construction histories over 3 dictionaries + decode-then-extend of reference frames; "
                 "non-trivial = message has at least one AVP; distinct by SHA-256 of the case line")
@@ -254,6 +268,18 @@ def check_C17(chk, tier, seed):
         cut = 1 + j % (n - 1)
         cases.append(f"LEAFDEC {ty} {n} x{'deadbeefcafef00d'[: 2 * cut]}")
         cases.append(c)
+    # ... and every twenty-third right after a whole MESSAGE was refused on the same thread, in the middle of an AVP that announced
+    # fewer octets than its type needs (a 4-octet type with 3, 1, 0 octets; an 8-octet type with 7, 4): the refusal leaves nothing behind
+    u32d = [d for d in eng.dicts["g"].live() if d["ty"] == "u32" and d["vendor"] is None][0]
+    u64d = [d for d in eng.dicts["g"].live() if d["ty"] == "u64" and d["vendor"] is None][0]
+    for j, c in enumerate(base[11::23]):
+        dd, n = [(u32d, 3), (u32d, 1), (u32d, 0), (u64d, 7), (u64d, 4)][j % 5]
+        # (the frame ENDS where the short value ends - no padding octets behind it that a reader could take for the rest of the value: KF-1)
+        body = gen.be(dd["code"], 4) + b"\x40" + gen.be(8 + n, 3) + bytes(range(1, n + 1))
+        fr = bytes([1]) + gen.be(20 + len(body), 3) + bytes([0x80]) + gen.be(272, 3) + gen.be(4, 4) + gen.be(1, 4) + gen.be(2, 4) + body
+        cases.append(f"X g {xb(fr)}")
+        cases.append(c)
+        cases.append(f"LEAFAFTER g {xb(fr)} " + c.split(" ", 1)[1])           # ... the message and the value on one and the same thread
     # ... and on a thread whose own thread-local object uses the library while the thread's locals are being destroyed
     cases.append("TLDROP")
     # encode side on in-range values
@@ -265,10 +291,19 @@ def check_C17(chk, tier, seed):
     for i, (c, im, mo) in enumerate(zip(cases, impl, model)):
         mobs, o = split_obs(mo)
         chk.case(c, True)
+        if c.startswith("X g "):
+            chk.count("refused-message-before-a-value")
+            # (whether such a frame is refused is C03's business and touches the known finding KF-1; here it only has to come back)
+            if not (im == "ERR" or im.startswith("OK ")):
+                chk.violation("decoding a message whose fixed-size AVP announces fewer octets than its type needs did not come back with a result: " + short(im, 200), dict(case=c, impl=short(im)))
+            continue
         if c in ("POISON", "TLDROP"):
             if im != "OK":
                 chk.violation("a decode / encode through a panicking reader / writer on another thread could not be contained: " + short(im, 200), dict(case=c, impl=short(im)))
             continue
+        if c.startswith("LEAFAFTER"):
+            c = "LEAFDEC " + c.split(" ", 3)[3]
+            chk.count("after-a-refused-message")
         chk.count(("dribble:" if c.startswith("LEAFDECD") else "interrupted:" if c.startswith("LEAFDECI") else "") + c.split()[1] if c.startswith("LEAFDEC") else "enc:" + c.split()[1])
         chk.validated += 1
         ok = im == mobs
@@ -296,6 +331,13 @@ def check_C17(chk, tier, seed):
             chk.violation("a Time value is decoded / encoded differently when the process's local time zone is not UTC",
                           dict(case=c, env="TZ=EST5EDT", impl=short(im), under_utc=short(ref[c])))
             break
+    # 300 short-lived threads, one after the other (a thread per connection, per request): the 257th is served like the first
+    o = core.run_sharded([eng.harness, "codec"], eng.prelude, ["THREADS 300"], shards=1, timeout=300)[0]
+    chk.case("THREADS 300", True)
+    chk.validated += 1
+    chk.count("many-short-lived-threads")
+    if not o.startswith("THREADS n=300 bad=0"):
+        chk.violation("fixed-size values were not decoded / encoded correctly on every one of 300 short-lived threads: " + short(o, 200), dict(case="THREADS 300", impl=short(o)))
     # the first values a process handles, on a thread with a small stack (160 KiB)
     o = core.run_sharded([eng.harness, "codec"], [], ["SMALLSTACK"], shards=1, timeout=300)[0]
     chk.case("SMALLSTACK", True)
@@ -1139,6 +1181,13 @@ def check_C18(chk, tier, seed):
                 seq.append(("ADDAVP", o["code"], o["vendor"], 0, ("L", gen.gen_leaf(r, gen.kinds_of_ty(o["ty"])[0]))))
         rep_hist.append(hist_line("g", ("NEW", 272, 4, 0x80, 1, 2), seq))
     hist += rep_hist
+    # built Address AVPs holding E.164 numbers of more than 15 characters (what a message holds is what was put in), top level and in a group
+    adef18 = [d for d in gd.live() if d["ty"] == "addr" and d["vendor"] is None][0]
+    gdef18 = [d for d in gd.live() if d["ty"] == "grp" and d["vendor"] is None][0]
+    for n in (15, 16, 19, 24, 40):
+        e = ("E", adef18["code"], None, 0x40, ("L", ("ae", bytes(0x30 + (3 * i) % 10 for i in range(n)))))
+        hist.append(hist_line("g", ("NEW", 272, 4, 0x80, 1, 2), [("ADD", e)]))
+        hist.append(hist_line("g", ("NEW", 272, 4, 0x80, 1, 2), [("ADD", ("E", gdef18["code"], None, 0, ("GN", [e])))]))
     for m in eng.ask_model(rep_hist):
         _, o = split_obs(m)
         if o.get("WD") == "1":
@@ -1156,6 +1205,17 @@ def check_C18(chk, tier, seed):
         if i % 2 == 0:
             hist.append(hist_line("g", ("DEC", hostile), []))
         hist.append(hist_line(did, ("DEC", fr), ops))
+    # decoded starting points of 8 ... 8.3 KiB whose LAST AVP is a long OctetString / DiameterURI (patterned, not zeros): the readers
+    # the decoder thread rotates through include a buffered one whose buffer ends inside that value
+    odef18 = [d for d in gd.live() if d["ty"] == "oct" and d["vendor"] is None and 1000 <= d["code"] < 1100][0]
+    udef18 = [d for d in gd.live() if d["ty"] == "uri" and d["vendor"] is None][0]
+    for j, n in enumerate(range(8100, 8400, 12)):
+        dd = [odef18, udef18][j % 2]
+        val = bytes((i * 7 + 13) % 251 + 1 for i in range(n))
+        lead = gen.be(1011, 4) + b"\0" + gen.be(8 + 2, 3) + b"ab\0\0"
+        last = gen.be(dd["code"], 4) + b"\x40" + gen.be(8 + n, 3) + val + b"\0" * ((4 - n % 4) % 4)
+        fr = bytes([1]) + gen.be(20 + len(lead) + len(last), 3) + bytes([0x80]) + gen.be(272, 3) + gen.be(4, 4) + gen.be(1, 4) + gen.be(2, 4) + lead + last
+        hist.append(hist_line("g", ("DEC", fr), []))
     cases = []
     for i, h in enumerate(hist):
         r = rng.fork(f"q{i}")
@@ -1228,6 +1288,12 @@ def check_C18(chk, tier, seed):
         if im != want:
             chk.violation("a message built from many large AVPs does not hold exactly the AVPs it was given, in order (get_avps / get_avp / reported length)",
                           dict(case=f"GBIG {n} {hx(size)}", impl=short(im, 400), expected=want))
+    o = core.run_sharded([eng.harness, "codec"], eng.prelude, ["TIMEFRAC"], shards=1, timeout=120)[0]
+    chk.case("TIMEFRAC", True)
+    chk.validated += 1
+    chk.count("built-time-with-fraction")
+    if o != "OK":
+        chk.violation("get_time() on a built Time AVP did not return the instant the AVP was built from (sub-second part): " + short(o, 200), dict(case="TIMEFRAC", impl=short(o)))
     chk.rule = ("type table + generated construction histories (repeated codes under different vendors/types, groups) + decoded-then-extended frames; "
                 "for the final message: all 16 typed accessors on every AVP (recursively through Grouped::avps()), get_avp for 7 codes (present, repeated, "
                 "absent) identified by pointer position in get_avps(); non-trivial = at least two top-level AVPs")
